@@ -250,6 +250,12 @@ static void op_eval(struct arg *a, int n, FILE *out) {
 	if (config_parse(&cl, confpath, &env) || VECTOR_LENGTH(cl.cl_list) == 0) { fputs("CONFERR", out); return; }
 	snprintf(dirpath, sizeof(dirpath), "%s/%s", tdir, (const char *)a[2].p);
 	snprintf(fpath, sizeof(fpath), "%s/%s", dirpath, (const char *)a[3].p);
+	{
+		/* <subdir> may name any directory below the scratch directory (a maildir called like template syntax): create what is missing */
+		char *q;
+		for (q = dirpath + strlen(tdir) + 1; (q = strchr(q, '/')) != NULL; q++) { *q = '\0'; (void)mkdir(dirpath, 0700); *q = '/'; }
+		(void)mkdir(dirpath, 0700);
+	}
 	fputs("PATH ", out); hexs(out, fpath);
 	fputs(" AST", out);
 	dump_expr(out, cl.cl_list[0].expr);
